@@ -277,7 +277,7 @@ func makeGlue(gen []byte, pkg *idl.PackageDeclaration, itfs []glueItf) (shims, m
 	var sb, mb bytes.Buffer
 	used := map[string]bool{}
 	var body bytes.Buffer
-	mb.WriteString("package main\n\nimport (\n\t\"verif/checks/c05/drv\"\n\tbus \"github.com/lugu/qiloop/bus\"\n)\n\nfunc main() {\n\tdrv.Main([]drv.Interface{\n")
+	mb.WriteString("package main\n\nimport (\n\t\"reflect\"\n\t\"verif/checks/c05/drv\"\n\tbus \"github.com/lugu/qiloop/bus\"\n)\n\nvar _ = reflect.TypeOf\n\nfunc main() {\n\tdrv.Main([]drv.Interface{\n")
 	for _, gi := range itfs {
 		n := gi.idlName
 		it := ifaces[n+"Implementor"]
@@ -285,7 +285,9 @@ func makeGlue(gen []byte, pkg *idl.PackageDeclaration, itfs []glueItf) (shims, m
 			return nil, nil, fmt.Errorf("the generated code declares no interface %sImplementor", n)
 		}
 		implType := "shim" + signature.CleanName(n)
-		fmt.Fprintf(&body, "type %s struct{ h_ *drv.Handler }\n\n", implType)
+		// tag_: "" for the object registered as the service, otherwise the name the
+		// driver gave to an object it created through Create<X> (object family)
+		fmt.Fprintf(&body, "type %s struct {\n\th_   *drv.Handler\n\ttag_ string\n}\n\n", implType)
 		for _, m := range it.Methods.List {
 			ft, ok := m.Type.(*ast.FuncType)
 			if !ok || len(m.Names) != 1 {
@@ -329,21 +331,43 @@ func makeGlue(gen []byte, pkg *idl.PackageDeclaration, itfs []glueItf) (shims, m
 			fmt.Fprintf(&body, "func (s_ *%s) %s(%s) (%s) {\n", implType, name, strings.Join(params, ", "), strings.Join(results, ", "))
 			switch {
 			case name == "Activate" && len(args) == 2:
-				fmt.Fprintf(&body, "\ts_.h_.Activated(%q, %s)\n\treturn nil\n", n, args[1])
+				fmt.Fprintf(&body, "\ts_.h_.Activated(s_.tag_, %q, %s, %s)\n\treturn nil\n", n, args[0], args[1])
 			case len(results) == 0:
 				// OnTerminate
 			case len(results) == 1:
-				fmt.Fprintf(&body, "\ts_.h_.Call(%q, %q, []interface{}{%s}, nil)\n\treturn nil\n", n, name, strings.Join(args, ", "))
+				fmt.Fprintf(&body, "\treturn s_.h_.Call(s_.tag_, %q, %q, []interface{}{%s}, nil)\n", n, name, strings.Join(args, ", "))
 			default:
-				fmt.Fprintf(&body, "\tvar r_ %s\n\ts_.h_.Call(%q, %q, []interface{}{%s}, &r_)\n\treturn r_, nil\n", results[0], n, name, strings.Join(args, ", "))
+				fmt.Fprintf(&body, "\tvar r_ %s\n\te_ := s_.h_.Call(s_.tag_, %q, %q, []interface{}{%s}, &r_)\n\treturn r_, e_\n", results[0], n, name, strings.Join(args, ", "))
 			}
 			body.WriteString("}\n\n")
 		}
 		// constructors, found by their shape
-		var objCtor, proxyCtor, service string
+		var objCtor, proxyCtor, service, createCtor, makeCtor string
 		proxyType := signature.CleanName(n) + "Proxy"
 		for _, fd := range funcs {
 			ft := fd.Type
+			// Create<X>(session bus.Session, service bus.Service, impl <X>Implementor) (<X>Proxy, error)
+			if ft.Params != nil && ft.Results != nil && len(ft.Results.List) == 2 && nodeText(fset, ft.Results.List[0].Type) == proxyType {
+				var pts []string
+				for _, p := range ft.Params.List {
+					cnt := len(p.Names)
+					if cnt == 0 {
+						cnt = 1
+					}
+					for j := 0; j < cnt; j++ {
+						pts = append(pts, nodeText(fset, p.Type))
+					}
+				}
+				if len(pts) == 3 && pts[0] == "bus.Session" && pts[1] == "bus.Service" && pts[2] == n+"Implementor" {
+					createCtor = fd.Name.Name
+				}
+			}
+			// Make<X>(sess bus.Session, proxy bus.Proxy) <X>Proxy
+			if ft.Params != nil && len(ft.Params.List) == 2 && ft.Results != nil && len(ft.Results.List) == 1 && nodeText(fset, ft.Results.List[0].Type) == proxyType &&
+				nodeText(fset, ft.Params.List[0].Type) == "bus.Session" && nodeText(fset, ft.Params.List[1].Type) == "bus.Proxy" &&
+				len(ft.Params.List[0].Names) <= 1 && len(ft.Params.List[1].Names) <= 1 {
+				makeCtor = fd.Name.Name
+			}
 			if ft.Params == nil || len(ft.Params.List) != 1 || ft.Results == nil {
 				continue
 			}
@@ -376,8 +400,15 @@ func makeGlue(gen []byte, pkg *idl.PackageDeclaration, itfs []glueItf) (shims, m
 		if err != nil {
 			return nil, nil, err
 		}
-		fmt.Fprintf(&mb, "\t\t{Name: %q, Service: %q,\n\t\t\tNewObject: func(h *drv.Handler) bus.Actor { return %s(&%s{h}) },\n\t\t\tNewProxy: func(s bus.Session) (interface{}, error) { return %s(s) },\n\t\t\tActions: []drv.Action{\n",
+		fmt.Fprintf(&mb, "\t\t{Name: %q, Service: %q,\n\t\t\tNewObject: func(h *drv.Handler) bus.Actor { return %s(&%s{h_: h}) },\n\t\t\tNewProxy: func(s bus.Session) (interface{}, error) { return %s(s) },\n",
 			n, service, objCtor, implType, proxyCtor)
+		if createCtor != "" && makeCtor != "" && ifaces[proxyType] != nil {
+			// the generated constructor of further objects of this interface, on
+			// the service's side or (through a ProxyService) on the client's
+			fmt.Fprintf(&mb, "\t\t\tProxyType: reflect.TypeOf((*%s)(nil)).Elem(),\n\t\t\tCreate: func(s bus.Session, svc bus.Service, h *drv.Handler, tag string) (interface{}, error) { return %s(s, svc, &%s{h, tag}) },\n\t\t\tWrap: func(s bus.Session, p bus.Proxy) interface{} { return %s(s, p) },\n",
+				proxyType, createCtor, implType, makeCtor)
+		}
+		mb.WriteString("\t\t\tActions: []drv.Action{\n")
 		for _, na := range nas {
 			fmt.Fprintf(&mb, "\t\t\t\t{Atom: %q, Kind: %q, IDLName: %q, NParams: %d, ImplName: %q, ProxyName: %q},\n",
 				na.atom.id, na.act.kind, na.act.name, len(na.act.params), na.implName, na.proxyName)
